@@ -3,7 +3,11 @@
    [req] is Rdata::equals, assumed transitive.  A zone is what HashMapTreeZone::new followed by any
    sequence of adds produces ([zone_build]; rejected adds are part of the history). *)
 From QV Require Import Base.Res Base.Octets Gen.ZoneConsts Model.ZoneTree Spec.ZoneLookupS
-  Proofs.ZoneRrsetP Proofs.ZoneTopP Proofs.ZoneIterP Proofs.ZoneStoreP.
+  Proofs.ZoneRrsetP Proofs.ZoneTopP Proofs.ZoneIterP Proofs.ZoneIterSmP Proofs.ZoneStoreP.
+
+(* the shared runner (Extract/ExZone.v) also extracts the validation model: keep it in this cone so
+   that `make Props/...vo` rebuilds everything the extraction loads *)
+From QV Require Model.ZoneValid Spec.ZoneValidS.
 
 Definition req_transitive (req : N -> N -> bytes -> bytes -> bool) : Prop :=
   forall cls ty a b c, req cls ty a b = true -> req cls ty b c = true -> req cls ty a c = true.
@@ -60,6 +64,11 @@ Theorem c20_iter_by_rrset : forall req, req_transitive req ->
   NoDup (map (fun x => (lc (fst x), rs_type (snd x))) (zone_iter_by_rrset z)).
 Proof. exact build_iter_rrsets. Qed.
 
+(* Node::iter as coded — the explicit-stack state machine driven until exhaustion — yields, for
+   ANY tree, exactly the pre-order walk the theorems above talk about, within the model's fuel *)
+Theorem c20_iter_state_machine : forall t, node_iter_sm t = Some (node_iter t).
+Proof. exact node_iter_sm_correct. Qed.
+
 (* soa() / ns() are the specification's apex SOA / NS RRsets and agree with the first item of the
    iteration (the apex node) *)
 Theorem c20_soa_ns : forall req, req_transitive req ->
@@ -98,4 +107,5 @@ Print Assumptions c20_add_ok_iff.
 Print Assumptions c20_add_err_kind.
 Print Assumptions c20_iter_by_node.
 Print Assumptions c20_iter_by_rrset.
+Print Assumptions c20_iter_state_machine.
 Print Assumptions c20_soa_ns.
